@@ -36,7 +36,8 @@ FILE_FAULTS = ["missing", "directory", "dangling-symlink", "unreadable"]
 # faults that need a base rule whose verdict DEPENDS on the faulted entry (a silently ignored value must flip 'found' to 'not found'):
 # a run of two instructions asked for with times 2, a $deref, an instruction with two described operands, a macro use with times
 SPECIAL_BASE_FAULTS = (
-    [f"times-{t}-{w}" for t in ("str", "float", "list", "null") for w in ("sibling", "group", "inside")]
+    [f"times-{t}-{w}" for t in ("str", "float", "list", "null", "floatbounds", "strbounds") for w in ("sibling", "group", "inside")]
+    + ["times-only-child-of-mapping-group", "times-neg-in-nested-mapping-group"]
     + ["times-neg-on-macro-use", "times-inverted-on-macro-use", "times-str-on-macro-use"]
     + ["deref-main-reg-null", "deref-offset-null", "deref-index-null"]
     + [f"{g}-operand" for g in ("empty-$and", "empty-$or", "empty-$and_any_order", "empty-$not", "not-2-args", "not-3-args")]
@@ -129,7 +130,15 @@ def inject_rule_fault(fault, doc, pos, garbage):
     if fault in SPECIAL_BASE_FAULTS:
         if fault.startswith("times-"):
             kind = fault.split("-")[1]
-            bad = {"str": ["2", "'2'", "two"], "float": [2.0, 2.5, -1.5], "list": [[2], [2, 2], []], "null": [None], "neg": [-2], "inverted": [{"min": 3, "max": 1}]}[kind]
+            if fault == "times-only-child-of-mapping-group":
+                # a group written as a mapping that holds nothing but times: an empty group
+                pat[1] = {["$or", "$and", "$not", "$and_any_order"][pos % 4]: {"times": 2}}
+                return doc, None, None
+            if fault == "times-neg-in-nested-mapping-group":
+                pat[1] = {"$and": {"$or": {"nop": [], "xor": [], "times": [-2, {"min": 3, "max": 1}, {"min": -1, "max": 2}][pos % 3]}, "cltq": {"times": 0}}}
+                return doc, None, None
+            bad = {"str": ["2", "'2'", "two"], "float": [2.0, 2.5, -1.5], "list": [[2], [2, 2], []], "null": [None], "neg": [-2], "inverted": [{"min": 3, "max": 1}],
+                   "floatbounds": [{"min": 2.0, "max": 2.0}, {"min": 1.0, "max": 2.5}, {"min": 2, "max": 2.5}], "strbounds": [{"min": "2", "max": "2"}, {"min": 2, "max": "2"}]}[kind]
             bad = bad[pos % len(bad)]
             it = pat[1]
             if fault.endswith("-on-macro-use"):
